@@ -1,6 +1,7 @@
 package main
 
 import (
+	"fmt"
 	"go/ast"
 	"go/token"
 	"go/types"
@@ -165,3 +166,150 @@ func init() {
 		}})
 }
 
+
+func init() {
+	register(&Rule{ID: "ARITH.compare-native", Floor: 8,
+		Doc: "the four ordering predicates < <= > >= return Bool(x OP y) with OP the predicate's own Go operator applied directly to the two operands (both .Int, or both toFloat/.Float, first argument on the left): an IEEE comparison, false whenever an operand is NaN — never a three-way comparison (cmp.Compare orders NaN below everything and equal to itself) compared with zero; and nothing in the kernel calls cmp.Compare/cmp.Less on float64 operands",
+		Run: func(c *Ctx) []Obligation {
+			intFld := c.LookupField("lisp.LVal.Int")
+			fltFld := c.LookupField("lisp.LVal.Float")
+			toFloat := c.LookupPkgFunc("lisp.toFloat")
+			if intFld == nil || fltFld == nil {
+				return []Obligation{anchorMissing("ARITH.compare-native", "LVal.Int / LVal.Float")}
+			}
+			ops := map[string]token.Token{"<": token.LSS, "<=": token.LEQ, ">": token.GTR, ">=": token.GEQ}
+			var obs []Obligation
+			for _, name := range []string{"<", "<=", ">", ">="} {
+				ent := c.RegistryByName("lisp", name)
+				if ent == nil {
+					obs = append(obs, anchorMissing("ARITH.compare-native", "operator "+name))
+					continue
+				}
+				_, u, _, ok := c.BodyOf(*ent)
+				if !ok || u.Decl == nil {
+					obs = append(obs, anchorMissing("ARITH.compare-native", "body of "+name))
+					continue
+				}
+				info := u.Pkg.TypesInfo
+				ps := paramObjs(u)
+				if len(ps) != 2 {
+					continue
+				}
+				// which local is args.Cells[0] / [1]
+				cellOf := map[types.Object]int{}
+				ast.Inspect(u.Decl.Body, func(n ast.Node) bool {
+					if as, ok := n.(*ast.AssignStmt); ok && len(as.Lhs) == len(as.Rhs) {
+						for i, r := range as.Rhs {
+							for k := 0; k < 2; k++ {
+								if isCellsIndex(r, ps[1], info, k) {
+									if o := identObj(info, as.Lhs[i]); o != nil {
+										cellOf[o] = k
+									}
+								}
+							}
+						}
+					}
+					return true
+				})
+				operand := func(e ast.Expr) (idx int, kind string, ok bool) {
+					e = ast.Unparen(e)
+					if se, ok2 := e.(*ast.SelectorExpr); ok2 {
+						f := FieldOfSelector(info, se)
+						if f == intFld || f == fltFld {
+							if o := identObj(info, se.X); o != nil {
+								if k, ok3 := cellOf[o]; ok3 {
+									if f == intFld {
+										return k, "int", true
+									}
+									return k, "float", true
+								}
+							}
+						}
+					}
+					if ce, ok2 := e.(*ast.CallExpr); ok2 && toFloat != nil && originOf(Callee(info, ce)) == toFloat && len(ce.Args) == 1 {
+						if o := identObj(info, ce.Args[0]); o != nil {
+							if k, ok3 := cellOf[o]; ok3 {
+								return k, "float", true
+							}
+						}
+					}
+					return 0, "", false
+				}
+				nres := 0
+				for _, rs := range returnsOf(u.Decl.Body) {
+					if len(rs.Results) != 1 {
+						continue
+					}
+					ce, ok := ast.Unparen(rs.Results[0]).(*ast.CallExpr)
+					if !ok || len(ce.Args) != 1 {
+						continue
+					}
+					if fn := Callee(info, ce); fn == nil || fn.Name() != "Bool" {
+						continue
+					}
+					nres++
+					construct := fmt.Sprintf("%s result#%d", name, nres)
+					be, ok := ast.Unparen(ce.Args[0]).(*ast.BinaryExpr)
+					if !ok {
+						obs = append(obs, mkOb(c, "ARITH.compare-native", u, construct, rs, Undecided, "the result `"+types.ExprString(ce.Args[0])+"` is not a direct comparison", true))
+						continue
+					}
+					li, lk, lok := operand(be.X)
+					ri, rk, rok := operand(be.Y)
+					switch {
+					case lok && rok && lk == rk && li == 0 && ri == 1 && be.Op == ops[name]:
+						obs = append(obs, mkOb(c, "ARITH.compare-native", u, construct, rs, Proved, "Bool(first "+be.Op.String()+" second) on "+lk+" operands", true))
+					case lok && rok && lk == rk && li == 1 && ri == 0 && be.Op == mirrorOp(ops[name]):
+						obs = append(obs, mkOb(c, "ARITH.compare-native", u, construct, rs, Proved, "Bool(second "+be.Op.String()+" first) on "+lk+" operands", true))
+					default:
+						obs = append(obs, mkOb(c, "ARITH.compare-native", u, construct, rs, Violated, "`"+types.ExprString(ce.Args[0])+"` is not the predicate's own operator applied to its two operands: a three-way comparison against zero orders NaN ((<= (/ 0 0) 1) becomes true), a swapped or different operator changes the order", true))
+					}
+				}
+				if nres == 0 {
+					obs = append(obs, mkOb(c, "ARITH.compare-native", u, name+" result", u.Decl, Undecided, "no Bool(...) result found", false))
+				}
+			}
+			// no three-way comparison of floats anywhere in the kernel
+			n3 := 0
+			for _, u := range c.Funcs(isKernel) {
+				info := u.Pkg.TypesInfo
+				ord := &ordinal{}
+				ast.Inspect(u.Decl.Body, func(n ast.Node) bool {
+					ce, ok := n.(*ast.CallExpr)
+					if !ok {
+						return true
+					}
+					fn := Callee(info, ce)
+					if fn == nil || fn.Pkg() == nil || fn.Pkg().Path() != "cmp" || (fn.Name() != "Compare" && fn.Name() != "Less") {
+						return true
+					}
+					for _, a := range ce.Args {
+						if tv, ok := info.Types[a]; ok {
+							if bt, ok := tv.Type.Underlying().(*types.Basic); ok && bt.Info()&types.IsFloat != 0 {
+								n3++
+								obs = append(obs, mkOb(c, "ARITH.compare-native", u, ord.next("cmp."+fn.Name()+" on floats"), ce, Violated, "cmp."+fn.Name()+" orders NaN (below every number, equal to itself); lisp numeric predicates are IEEE comparisons", true))
+								break
+							}
+						}
+					}
+					return true
+				})
+			}
+			obs = append(obs, Obligation{Rule: "ARITH.compare-native", Func: "-", Construct: "three-way float comparisons in the kernel", Verdict: Proved, Detail: fmt.Sprintf("%d found (each is listed as a violation)", n3)})
+			return obs
+		}})
+}
+
+func mirrorOp(t token.Token) token.Token {
+	switch t {
+	case token.LSS:
+		return token.GTR
+	case token.LEQ:
+		return token.GEQ
+	case token.GTR:
+		return token.LSS
+	case token.GEQ:
+		return token.LEQ
+	}
+	return t
+}
